@@ -80,8 +80,20 @@ Proof.
   - replace (pos + 1 =? lvl) with true by lia. replace pos with (lvl - 1) by lia. reflexivity.
 Qed.
 
-Definition kok (key : option (list Z)) (idx : Z) : Prop :=
-  match key with Some k => forallb char_ok k = true | None => 0 <= idx end.
+(* side conditions on a child as the tree walk / the binary walk sees it *)
+Definition kok_j (key : option (list Z)) (idx : Z) : Prop :=
+  match key with Some k => forallb char_ok k = true /\ idx = zlen k | None => 0 <= idx < 100000000000 end.
+Definition kok_b (key : option (list Z)) (idx : Z) : Prop :=
+  match key with Some k => forallb char_ok k = true | None => 0 <= idx < 100000000000 end.
+
+(* arrays short enough for their indices to be C ints *)
+Fixpoint small (v : jval) : bool :=
+  match v with
+  | JArr l => (zlen l <? 2147483648) && forallb small l
+  | JObj ms => forallb (fun m => small (snd m)) ms
+  | _ => true
+  end.
+Definition wfx (v : jval) : Prop := wf v = true /\ small v = true.
 
 (* the search both walks perform, without the cursor: first child whose name equals the segment and below which the
    rest of the pointer is found *)
@@ -119,20 +131,35 @@ Lemma dfs_cons s rest key idx n tl :
     else dfs (s :: rest) tl.
 Proof. reflexivity. Qed.
 
-Definition cwf (a : option (list Z) * Z * jval) : Prop := wf (snd a) = true /\ kok (fst (fst a)) (snd (fst a)).
+Definition cwf (a : option (list Z) * Z * jval) : Prop := wfx (snd a) /\ kok_j (fst (fst a)) (snd (fst a)).
 
-Lemma number_cwf (l : list jval) : forall i, 0 <= i -> Forall (fun v => wf v = true) l -> Forall cwf (number i l).
+Lemma number_cwf (l : list jval) : forall i, 0 <= i -> i + zlen l < 100000000000 -> Forall wfx l -> Forall cwf (number i l).
 Proof.
-  induction l as [|x r IH]; intros i Hi Hw; cbn [number]; [constructor|]. inversion Hw; subst.
-  constructor; [split; [assumption|exact Hi]|]. apply IH; [lia|assumption].
+  induction l as [|x r IH]; intros i Hi Hb Hw; cbn [number]; [constructor|]. inversion Hw; subst.
+  rewrite zlen_cons in Hb. pose proof (zlen_nonneg r).
+  constructor; [split; [assumption|cbn; lia]|]. apply IH; [lia|lia|assumption].
 Qed.
 
-Lemma kids_j_cwf v : wf v = true -> match kids_j v with KSome cs => Forall cwf cs | _ => True end.
+Lemma wfx_arr l : wfx (JArr l) -> zlen l < 2147483648 /\ Forall wfx l.
+Proof.
+  intros [Hw Hs]. cbn [small] in Hs. apply andb_prop in Hs as [H1 H2]. split; [lia|].
+  pose proof (wf_arr_inv _ Hw) as Hwl. rewrite forallb_forall in H2. rewrite Forall_forall in *.
+  intros x Hx. split; [apply Hwl|apply H2]; assumption.
+Qed.
+Lemma wfx_obj ms : wfx (JObj ms) ->
+  Forall (fun m => forallb char_ok (fst m) = true /\ zlen (fst m) <= 255 /\ wfx (snd m)) ms /\ keys_unique (map fst ms) = true.
+Proof.
+  intros [Hw Hs]. cbn [small] in Hs. destruct (wf_obj_inv _ Hw) as [Hm Hu]. split; [|assumption].
+  rewrite forallb_forall in Hs. rewrite Forall_forall in *. intros m Hin. destruct (Hm m Hin) as (A & B & C).
+  repeat split; try assumption. apply Hs. assumption.
+Qed.
+
+Lemma kids_j_cwf v : wfx v -> match kids_j v with KSome cs => Forall cwf cs | _ => True end.
 Proof.
   intros Hw. destruct v; cbn [kids_j]; try exact I.
-  - apply number_cwf; [lia|apply wf_arr_inv; assumption].
-  - destruct (wf_obj_inv _ Hw) as [Hm _]. apply Forall_forall. intros c Hc. apply in_map_iff in Hc as (m & <- & Hin).
-    rewrite Forall_forall in Hm. destruct (Hm m Hin) as (H1 & H2 & H3). split; assumption.
+  - destruct (wfx_arr _ Hw) as [Hl Hf]. apply number_cwf; [lia|lia|assumption].
+  - destruct (wfx_obj _ Hw) as [Hm _]. apply Forall_forall. intros c Hc. apply in_map_iff in Hc as (m & <- & Hin).
+    rewrite Forall_forall in Hm. destruct (Hm m Hin) as (H1 & H2 & H3). split; [assumption|]. cbn. split; [assumption|reflexivity].
 Qed.
 
 Lemma skipn_seg (ptr : list (list Z)) lvl : 0 <= lvl < zlen ptr ->
@@ -151,12 +178,13 @@ Section Walk.
   Variable eat : bool.
   Variable ptr : list (list Z).
   Variable R : jval -> N -> Prop.
+  Variable kokN : option (list Z) -> Z -> Prop.
   Notation visit' := (visit N kids upd eat ptr).
   Notation cnt := (zlen ptr).
 
   Definition crel (a : option (list Z) * Z * jval) (b : option (list Z) * Z * N) : Prop :=
     fst (fst a) = fst (fst b) /\ keystr (fst (fst a)) (snd (fst a)) = keystr (fst (fst b)) (snd (fst b)) /\
-    kok (fst (fst b)) (snd (fst b)) /\ R (snd a) (snd b).
+    kokN (fst (fst b)) (snd (fst b)) /\ R (snd a) (snd b).
 
   Definition kids_rel (kj : kres jval) (kn : kres N) : Prop :=
     match kj, kn with
@@ -165,8 +193,8 @@ Section Walk.
     | _, _ => False
     end.
 
-  Hypothesis Hupd : forall pos lvl key idx, kok key idx -> upd ptr pos lvl key idx = upd_spec ptr pos lvl key idx.
-  Hypothesis Hkids : forall v n, R v n -> wf v = true -> kids_rel (kids_j v) (kids n).
+  Hypothesis Hupd : forall pos lvl key idx, kokN key idx -> upd ptr pos lvl key idx = upd_spec ptr pos lvl key idx.
+  Hypothesis Hkids : forall v n, R v n -> wfx v -> kids_rel (kids_j v) (kids n).
   Hypothesis Hcnt : cnt <= jbinn_JBL_MAX_NESTING_LEVEL.
 
   (* below a node whose path did not match nothing happens *)
@@ -194,7 +222,7 @@ Section Walk.
 
   Definition walk_post (lvl : Z) (o : option jval) (r : vr N) : Prop :=
     match o with
-    | Some x => exists pos' rn, r = VOk (VS pos' (Some rn) true) /\ R x rn /\ wf x = true
+    | Some x => exists pos' rn, r = VOk (VS pos' (Some rn) true) /\ R x rn /\ wfx x
     | None => exists st', r = VOk st' /\ inv lvl st'
     end.
 
@@ -221,11 +249,11 @@ Section Walk.
         rewrite skipn_last_level in Erest by lia. subst rest. cbn [andb negb].
         destruct eat; cbn [negb andb].
         * destruct (kids_j v) as [| |cj2]; destruct (kids n) as [|e|cn2]; try contradiction.
-          -- rewrite visit_term by reflexivity. exists lvl, n. repeat split; assumption.
+          -- rewrite visit_term by reflexivity. exists lvl, n. split; [reflexivity|split; assumption].
           -- replace (lvl + 1 >? jbinn_JBL_MAX_NESTING_LEVEL) with false by lia.
              destruct f as [|f']; [exfalso; lia|]. rewrite visit_term by reflexivity. rewrite visit_term by reflexivity.
-             exists lvl, n. repeat split; assumption.
-        * exists lvl, n. repeat split; assumption.
+             exists lvl, n. split; [reflexivity|split; assumption].
+        * exists lvl, n. split; [reflexivity|split; assumption].
       + (* partial match: go down *)
         assert (Hlt : lvl + 1 < cnt) by lia.
         destruct rest as [|s2 r2].
@@ -240,7 +268,7 @@ Section Walk.
           pose proof (IHf (lvl + 1) cj2 cn2 st1 Hkr Hkw ltac:(lia) ltac:(lia) Hi1) as Hdown.
           rewrite <- Erest in Hdown.
           destruct (dfs (s2 :: r2) cj2) as [r|]; cbn [walk_post] in Hdown.
-          -- destruct Hdown as (pos' & rn & -> & HRr & Hwr). rewrite visit_term by reflexivity. exists pos', rn. repeat split; assumption.
+          -- destruct Hdown as (pos' & rn & -> & HRr & Hwr). rewrite visit_term by reflexivity. exists pos', rn. split; [reflexivity|split; assumption].
           -- destruct Hdown as (st' & -> & (A & B & C)). apply IHl. repeat split; try assumption; lia.
     - (* no match at this child *)
       cbn [andb negb]. rewrite Hres. replace (cnt <? lvl + 1) with false by lia.
@@ -345,7 +373,7 @@ Proof.
   - destruct ((49 <=? c) && (c <=? 57) && forallb is_digit (c2 :: r')) eqn:E; [|discriminate].
     injection H as <-. apply andb_prop in E as [E1 E2]. apply andb_prop in E1 as [E0 E1].
     assert (Hi' : dval (c :: c2 :: r') < 10 ^ Z.of_nat 11) by (change (10 ^ Z.of_nat 11) with 100000000000; exact Hi).
-    unfold itoa. change (fold_left (fun a d : Z => a * 10 + (d - 48)) (c :: c2 :: r') 0) with (dval (c :: c2 :: r')).
+    unfold itoa. match goal with |- rev (digits_rev 11 ?t) = _ => change t with (dval (c :: c2 :: r')) end.
     rewrite (digits_rev_of_string (c2 :: r') c ltac:(lia) E2 11 Hi').
     apply rev_involutive.
 Qed.
@@ -362,4 +390,486 @@ Proof.
   intros H. unfold itoa. rewrite forallb_rev.
   destruct (digits_rev_spec 11 i ltac:(change (10 ^ Z.of_nat 11) with 100000000000; lia) ltac:(lia)) as (_ & H2 & _).
   rewrite forallb_forall in *. intros c Hc. specialize (H2 c Hc). unfold is_digit in H2. unfold char_ok. lia.
+Qed.
+
+(* ------------------------------------------------------------------ the two cursor updates against upd_spec *)
+Definition pok (ptr : list (list Z)) : Prop := Forall (fun s => forallb char_ok s = true /\ star s = false) ptr.
+
+Lemma seg_ok ptr lvl : pok ptr -> forallb char_ok (seg_at ptr lvl) = true /\ star (seg_at ptr lvl) = false.
+Proof.
+  intros H. unfold seg_at. destruct (nth_in_or_default (Z.to_nat lvl) ptr []) as [Hin | ->].
+  - unfold pok in H. rewrite Forall_forall in H. apply H. assumption.
+  - split; reflexivity.
+Qed.
+
+Lemma bytes_eqb_len a b : bytes_eqb a b = true -> zlen a = zlen b.
+Proof. intros H. apply bytes_eqb_eq in H. subst. reflexivity. Qed.
+
+Lemma zfirst_all {A} (l : list A) : zfirst (zlen l) l = l.
+Proof. unfold zfirst, zlen. rewrite Nat2Z.id. apply firstn_all. Qed.
+
+Lemma strn_eq a seg : forallb char_ok a = true -> forallb char_ok seg = true ->
+  ((zlen a =? zlen seg) && strncmp_eq a seg (zlen a)) = bytes_eqb a seg.
+Proof.
+  intros Ha Hs. unfold strncmp_eq. rewrite !cstr_id by assumption.
+  destruct (zlen a =? zlen seg) eqn:E.
+  - apply Z.eqb_eq in E. rewrite zfirst_all. rewrite E, zfirst_all. reflexivity.
+  - cbn [andb]. destruct (bytes_eqb a seg) eqn:B; [|reflexivity]. apply bytes_eqb_len in B. lia.
+Qed.
+
+Lemma upd_jbl_spec ptr : pok ptr -> forall pos lvl key idx, kok_b key idx ->
+  upd_jbl ptr pos lvl key idx = upd_spec ptr pos lvl key idx.
+Proof.
+  intros Hp pos lvl key idx Hk. unfold upd_jbl, upd_spec. cbv zeta.
+  destruct (lvl <? zlen ptr); [|reflexivity].
+  destruct ((if pos >=? lvl then lvl - 1 else pos) + 1 =? lvl); [|reflexivity].
+  destruct (seg_ok ptr lvl Hp) as [_ Hst]. rewrite Hst, orb_false_r.
+  destruct key as [k|]; cbn [keystr]; [|reflexivity]. cbn in Hk. rewrite cstr_id by assumption. reflexivity.
+Qed.
+
+Lemma upd_jbn_spec ptr : pok ptr -> forall pos lvl key idx, kok_j key idx ->
+  upd_jbn ptr pos lvl key idx = upd_spec ptr pos lvl key idx.
+Proof.
+  intros Hp pos lvl key idx Hk. unfold upd_jbn, upd_spec. cbv zeta.
+  destruct (lvl <? zlen ptr); [|reflexivity].
+  destruct ((if pos >=? lvl then lvl - 1 else pos) + 1 =? lvl); [|reflexivity].
+  destruct (seg_ok ptr lvl Hp) as [Hsc Hst]. rewrite Hst, orb_false_r.
+  destruct key as [k|]; cbn [keystr].
+  - destruct Hk as [Hk ->]. rewrite strn_eq by assumption. reflexivity.
+  - cbn in Hk. rewrite strn_eq by (try assumption; apply itoa_char_ok; assumption). reflexivity.
+Qed.
+
+(* ------------------------------------------------------------------ the cursor-free search is the RFC 6901 evaluation *)
+Lemma key_ieq_refl k : key_ieq k k = true.
+Proof. induction k as [|c r IH]; [reflexivity|]. cbn [key_ieq]. rewrite Z.eqb_refl, IH. reflexivity. Qed.
+
+Lemma unique_head_notin k ks : keys_unique (k :: ks) = true -> ~ In k ks.
+Proof.
+  cbn [keys_unique]. intros H Hin. apply andb_prop in H as [H _]. apply negb_true_iff in H.
+  assert (existsb (key_ieq k) ks = true) by (apply existsb_exists; exists k; split; [assumption|apply key_ieq_refl]). congruence.
+Qed.
+
+Definition kids_list (v : jval) : list (option (list Z) * Z * jval) := match kids_j v with KSome cs => cs | _ => [] end.
+
+Lemma dfs_kids_list segs v : (match kids_j v with KSome cs' => dfs segs cs' | _ => None end) = dfs segs (kids_list v).
+Proof. unfold kids_list. destruct (kids_j v); try reflexivity; destruct segs; reflexivity. Qed.
+
+Lemma dfs_obj_nomatch s rest ms : ~ In s (map fst ms) ->
+  dfs (s :: rest) (map (fun m : list Z * jval => (Some (fst m), zlen (fst m), snd m)) ms) = None.
+Proof.
+  induction ms as [|[k x] tl IH]; intros Hn; [reflexivity|]. cbn [map fst snd]. rewrite dfs_cons. cbn [keystr].
+  destruct (bytes_eqb k s) eqn:E.
+  - exfalso. apply bytes_eqb_eq in E. subst. apply Hn. left. reflexivity.
+  - apply IH. intros Hin. apply Hn. right. assumption.
+Qed.
+
+Lemma dfs_number_nomatch s rest : forall l i, 0 <= i -> i + zlen l < 100000000000 ->
+  (forall j, rfc_index s = Some j -> j < i) -> dfs (s :: rest) (number i l) = None.
+Proof.
+  induction l as [|x r IH]; intros i Hi Hb Hn; [reflexivity|]. cbn [number]. rewrite dfs_cons. cbn [keystr].
+  rewrite zlen_cons in Hb. pose proof (zlen_nonneg r).
+  destruct (bytes_eqb (itoa i) s) eqn:E.
+  - exfalso. apply itoa_match in E; [|lia]. specialize (Hn i E). lia.
+  - apply IH; try lia; try (intros j Hj; specialize (Hn j Hj); lia).
+Qed.
+
+Lemma nth_error_number_shift {A} (l : list A) (x : A) j : 1 <= j -> nth_error (x :: l) (Z.to_nat j) = nth_error l (Z.to_nat (j - 1)).
+Proof. intros H. replace (Z.to_nat j) with (S (Z.to_nat (j - 1))) by lia. reflexivity. Qed.
+
+Lemma rfc_index_nonneg s j : rfc_index s = Some j -> 0 <= j.
+Proof.
+  unfold rfc_index. destruct s as [|c [|c2 r']]; try discriminate.
+  - destruct (is_digit c) eqn:D; [|discriminate]. unfold is_digit in D. intros H. injection H as <-. lia.
+  - destruct ((49 <=? c) && (c <=? 57) && forallb is_digit (c2 :: r')) eqn:D; [|discriminate].
+    intros H. apply Some_inj in H. subst j. apply andb_prop in D as [D1 D2]. apply andb_prop in D1 as [D0 D1].
+    pose proof (dval_lead (c2 :: r') c ltac:(lia) D2) as Hl. unfold dval in Hl. lia.
+Qed.
+
+Theorem dfs_rfc : forall segs v, wfx v -> segs <> [] -> dfs segs (kids_list v) = rfc6901_at segs v.
+Proof.
+  induction segs as [|s rest IH]; intros v Hw Hne; [congruence|]. clear Hne.
+  assert (IH' : forall x, wfx x -> match rest with [] => Some x | _ :: _ => match dfs rest (kids_list x) with Some r => Some r | None => None end end
+                             = rfc6901_at rest x).
+  { intros x Hx. destruct rest as [|s2 r2]; [reflexivity|]. rewrite (IH x Hx) by discriminate. destruct (rfc6901_at (s2 :: r2) x); reflexivity. }
+  destruct v; try reflexivity.
+  - (* array *)
+    destruct (wfx_arr _ Hw) as [Hlen Hall]. unfold kids_list. cbn [kids_j rfc6901_at].
+    assert (G : forall l i, 0 <= i -> i + zlen l < 100000000000 -> Forall wfx l ->
+                dfs (s :: rest) (number i l) =
+                match rfc_index s with
+                | Some j => if j <? i then None else match nth_error l (Z.to_nat (j - i)) with
+                                                    | Some x => rfc6901_at rest x
+                                                    | None => None
+                                                    end
+                | None => None
+                end).
+    { induction l as [|x r IHl]; intros i Hi Hb Hf.
+      - cbn [number]. rewrite dfs_nil. destruct (rfc_index s) as [j|]; [|reflexivity].
+        destruct (j <? i); [reflexivity|]. destruct (Z.to_nat (j - i)); reflexivity.
+      - cbn [number]. rewrite dfs_cons. cbn [keystr]. rewrite zlen_cons in Hb. pose proof (zlen_nonneg r).
+        pose proof (Forall_inv Hf) as Hx. pose proof (Forall_inv_tail Hf) as Hr.
+        destruct (bytes_eqb (itoa i) s) eqn:E.
+        + apply itoa_match in E; [|lia]. rewrite E. replace (i <? i) with false by lia. replace (i - i) with 0 by lia.
+          cbn [Z.to_nat nth_error]. rewrite <- (IH' x Hx). rewrite dfs_kids_list.
+          destruct rest as [|s2 r2]; [reflexivity|].
+          destruct (dfs (s2 :: r2) (kids_list x)); [reflexivity|].
+          apply dfs_number_nomatch; try lia. intros j Hj. rewrite E in Hj. injection Hj as <-. lia.
+        + rewrite IHl by (try assumption; lia).
+          destruct (rfc_index s) as [j|] eqn:Ej; [|reflexivity].
+          assert (j <> i). { intros ->. apply (itoa_match i s) in Ej; [congruence|lia]. }
+          destruct (j <? i) eqn:E1.
+          * replace (j <? i + 1) with true by lia. reflexivity.
+          * replace (j <? i + 1) with false by lia. rewrite (nth_error_number_shift r x (j - i)) by lia.
+            replace (j - i - 1) with (j - (i + 1)) by lia. reflexivity. }
+    rewrite (G items 0) by (try assumption; lia).
+    destruct (rfc_index s) as [j|] eqn:Ej; [|reflexivity].
+    destruct (j <? 0) eqn:E0.
+    + exfalso. pose proof (rfc_index_nonneg _ _ Ej). lia.
+    + replace (j - 0) with j by lia. reflexivity.
+  - (* object *)
+    destruct (wfx_obj _ Hw) as [Hm Hu]. unfold kids_list. cbn [kids_j rfc6901_at].
+    induction members as [|[k x] tl IHm]; [reflexivity|].
+    cbn [map fst snd find_key]. rewrite dfs_cons. cbn [keystr].
+    pose proof (Forall_inv Hm) as (Hk1 & Hk2 & Hx). cbn [fst snd] in *.
+    destruct (bytes_eqb k s) eqn:E.
+    + apply bytes_eqb_eq in E. subst k. rewrite bytes_eqb_refl by (apply Forall_forall; trivial).
+      rewrite <- (IH' x Hx). rewrite dfs_kids_list.
+      destruct rest as [|s2 r2]; [reflexivity|].
+      destruct (dfs (s2 :: r2) (kids_list x)); [reflexivity|].
+      apply dfs_obj_nomatch. cbn [map fst] in Hu. apply unique_head_notin. assumption.
+    + assert (E' : bytes_eqb s k = false).
+      { destruct (bytes_eqb s k) eqn:B; [|reflexivity]. apply bytes_eqb_eq in B. subst. rewrite bytes_eqb_refl in E by (apply Forall_forall; trivial). discriminate. }
+      rewrite E'. apply IHm.
+      * split; [|]. 
+        -- destruct Hw as [Hw1 Hw2]. cbn [wf] in *. apply andb_prop in Hw1 as [A B]. cbn [forallb map keys_unique] in *.
+           apply andb_prop in A as [_ A]. apply andb_prop in B as [_ B]. rewrite A, B. reflexivity.
+        -- destruct Hw as [_ Hw2]. cbn [small forallb] in *. apply andb_prop in Hw2 as [_ Hw2]. assumption.
+      * apply (Forall_inv_tail Hm).
+      * cbn [map keys_unique] in Hu. apply andb_prop in Hu as [_ Hu]. assumption.
+Qed.
+
+(* ------------------------------------------------------------------ jbn_at2 = RFC 6901 *)
+Lemma kids_j_self v : wfx v -> kids_rel jval eq kok_j (kids_j v) (kids_j v).
+Proof.
+  intros Hw. pose proof (kids_j_cwf v Hw) as Hc. unfold kids_rel.
+  destruct (kids_j v) as [|e|cs] eqn:E; [exact I|destruct v; discriminate|].
+  clear E. induction Hc as [|a l [Ha1 Ha2] Hl IH]; [constructor|]. constructor; [|assumption].
+  unfold crel. split; [reflexivity|]. split; [reflexivity|]. split; [assumption|reflexivity].
+Qed.
+
+Theorem at_tree2_rfc v ptr : wfx v -> pok ptr -> zlen ptr <= jbinn_JBL_MAX_NESTING_LEVEL ->
+  at_tree2 v ptr = match rfc6901_at ptr v with Some r => AtFound r | None => AtNotFound end.
+Proof.
+  intros Hw Hp Hc. unfold at_tree2. destruct ptr as [|s rest]; [reflexivity|].
+  pose proof (dfs_rfc (s :: rest) v Hw ltac:(discriminate)) as Hd. unfold kids_list in Hd.
+  pose proof (kids_j_self v Hw) as Hself. pose proof (kids_j_cwf v Hw) as Hcw.
+  destruct (kids_j v) as [|e|cs] eqn:Ek.
+  - rewrite <- Hd. reflexivity.
+  - destruct v; discriminate.
+  - pose proof (walk_matched jval kids_j upd_jbn true (s :: rest) eq kok_j
+                  (upd_jbn_spec (s :: rest) Hp) (fun v n (E : v = n) Hwv => eq_ind v (fun n => kids_rel jval eq kok_j (kids_j v) (kids_j n)) (kids_j_self v Hwv) n E) Hc
+                  (at_fuel (s :: rest)) 0 cs cs (VS (-1) None false) Hself Hcw) as W.
+    assert (H1 : Z.of_nat (at_fuel (s :: rest)) + 0 > zlen (s :: rest)) by (unfold at_fuel, zlen; lia).
+    assert (H2 : 0 <= 0 < zlen (s :: rest)) by (rewrite zlen_cons; pose proof (zlen_nonneg rest); lia).
+    assert (H3 : inv jval 0 (VS (-1) None false)) by (repeat split; cbn; lia).
+    specialize (W H1 H2 H3). cbn [Z.to_nat skipn] in W. rewrite Hd in W.
+    destruct (rfc6901_at (s :: rest) v) as [r|]; cbn [walk_post] in W.
+    + destruct W as (pos' & rn & -> & <- & _). reflexivity.
+    + destruct W as (st' & -> & (_ & -> & _)). reflexivity.
+Qed.
+
+(* ------------------------------------------------------------------ jbl_at2 = RFC 6901 *)
+Lemma number_rel {N} (R : jval -> N -> Prop) : forall l bvs, Forall2 R l bvs -> forall i, 0 <= i -> i + zlen l < 100000000000 ->
+  Forall2 (crel N R kok_b) (number i l) (number i bvs).
+Proof.
+  induction 1 as [|x b l bvs Hxb Hr IH]; intros i Hi Hb; cbn [number]; constructor.
+  - unfold crel. cbn. rewrite zlen_cons in Hb. pose proof (zlen_nonneg l). repeat split; try assumption; lia.
+  - apply IH; [lia|]. rewrite zlen_cons in Hb. lia.
+Qed.
+
+Lemma obj_kids_rel ms kbs : Forall2 (fun (m : list Z * jval) (kb : list Z * bval) => fst kb = fst m /\ repr (snd m) (snd kb)) ms kbs ->
+  Forall (fun m : list Z * jval => forallb char_ok (fst m) = true) ms ->
+  Forall2 (crel bval repr kok_b) (map (fun m : list Z * jval => (Some (fst m), zlen (fst m), snd m)) ms)
+                                  (map (fun m : list Z * bval => (Some (fst m), -1, snd m)) kbs).
+Proof.
+  induction 1 as [|m kb ms' kbs' [Hk Hrb] Hrest IH]; intros Hm; cbn [map]; constructor.
+  - pose proof (Forall_inv Hm) as Hc. unfold crel. cbn [fst snd keystr kok_b]. rewrite Hk. repeat split; assumption.
+  - apply IH. apply (Forall_inv_tail Hm).
+Qed.
+
+Lemma kids_b_rel v b : repr v b -> wfx v -> kids_rel bval repr kok_b (kids_j v) (kids_b b).
+Proof.
+  intros Hr Hw.
+  assert (Hscalar : (forall l, v <> JArr l) -> (forall ms, v <> JObj ms) -> kids_b b = KNot).
+  { intros Ha Ho. pose proof (repr_scalar_dec v b Hr Ha Ho 1%nat ltac:(lia)) as Hd. cbn [dec_node] in Hd. unfold kids_b.
+    destruct (bt b =? jbinn_BINN_OBJECT).
+    { exfalso. destruct (iter_init (bptr b) jbinn_BINN_OBJECT); [|discriminate].
+      match type of Hd with match ?g with _ => _ end = _ => destruct g; [|discriminate] end. injection Hd as <-. eapply Ho. reflexivity. }
+    destruct (bt b =? jbinn_BINN_MAP); [discriminate|].
+    destruct (bt b =? jbinn_BINN_LIST); [|reflexivity].
+    exfalso. destruct (iter_init (bptr b) jbinn_BINN_LIST); [|discriminate].
+    match type of Hd with match ?g with _ => _ end = _ => destruct g; [|discriminate] end. injection Hd as <-. eapply Ha. reflexivity. }
+  destruct v; try (rewrite Hscalar by discriminate; exact I).
+  - destruct (repr_container _ _ Hr ltac:(left; eauto)) as (ty & count & body & rest & Hbt & Hit & Hb & Hk).
+    destruct Hk as [(-> & l' & bxs & E & Hx & -> & ->)|(_ & ms' & bxs & E & _)]; [|discriminate]. injection E as <-.
+    destruct (wfx_arr _ Hw) as [Hlen Hall].
+    unfold kids_b. rewrite Hbt. kc. kb. rewrite Hit. cbn [kids_j kids_rel]. unfold iter_fuel. cbn [it_cnt].
+    apply number_rel; [|lia|lia].
+    pose proof (list_items_repr items bxs Hx (wf_arr_inv _ (proj1 Hw)) Hb rest 0 (S (Z.to_nat (zlen items)))) as HI.
+    change (0 + zlen items) with (zlen items) in HI. kc. apply HI. unfold zlen. rewrite Nat2Z.id. lia.
+  - destruct (repr_container _ _ Hr ltac:(right; eauto)) as (ty & count & body & rest & Hbt & Hit & Hb & Hk).
+    destruct Hk as [(_ & l' & bxs & E & _)|(-> & ms' & bxs & E & Hx & -> & ->)]; [discriminate|]. injection E as <-.
+    destruct (wfx_obj _ Hw) as [Hm _].
+    unfold kids_b. rewrite Hbt. kc. kb. rewrite Hit. cbn [kids_j kids_rel]. unfold iter_fuel. cbn [it_cnt].
+    assert (Hwm' : Forall (fun m => wf (snd m) = true) members).
+    { eapply Forall_impl; [|exact Hm]. intros m (_ & _ & [H _]). exact H. }
+    pose proof (obj_items_repr members bxs Hx Hwm' Hb rest 0 (S (Z.to_nat (zlen members)))) as HI.
+    change (0 + zlen members) with (zlen members) in HI. kc.
+    specialize (HI ltac:(unfold zlen; rewrite Nat2Z.id; lia)).
+    apply obj_kids_rel; [exact HI|]. eapply Forall_impl; [|exact Hm]. intros m (H & _). exact H.
+Qed.
+
+Theorem at_bval2_rfc v b ptr : repr v b -> wfx v -> pok ptr -> zlen ptr <= jbinn_JBL_MAX_NESTING_LEVEL ->
+  (exists l, v = JArr l) \/ (exists ms, v = JObj ms) ->
+  match rfc6901_at ptr v with
+  | Some r => exists rn, at_bval2 b ptr = AtFound rn /\ repr r rn
+  | None => at_bval2 b ptr = AtNotFound
+  end.
+Proof.
+  intros Hr Hw Hp Hc Hcont. unfold at_bval2. destruct ptr as [|s rest]; [cbn [rfc6901_at]; eauto|].
+  pose proof (dfs_rfc (s :: rest) v Hw ltac:(discriminate)) as Hd. unfold kids_list in Hd.
+  pose proof (kids_b_rel v b Hr Hw) as Hrel. pose proof (kids_j_cwf v Hw) as Hcw. unfold kids_rel in Hrel.
+  destruct (kids_j v) as [|e|cs] eqn:Ek.
+  - exfalso. destruct Hcont as [[l ->]|[ms ->]]; discriminate.
+  - destruct v; discriminate.
+  - destruct (kids_b b) as [|e|cn] eqn:Ekb; try contradiction.
+    pose proof (walk_matched bval kids_b upd_jbl false (s :: rest) repr kok_b
+                  (upd_jbl_spec (s :: rest) Hp) kids_b_rel Hc
+                  (at_fuel (s :: rest)) 0 cs cn (VS (-1) None false) Hrel Hcw) as W.
+    assert (H1 : Z.of_nat (at_fuel (s :: rest)) + 0 > zlen (s :: rest)) by (unfold at_fuel, zlen; lia).
+    assert (H2 : 0 <= 0 < zlen (s :: rest)) by (rewrite zlen_cons; pose proof (zlen_nonneg rest); lia).
+    assert (H3 : inv bval 0 (VS (-1) None false)) by (repeat split; cbn; lia).
+    specialize (W H1 H2 H3). cbn [Z.to_nat skipn] in W. rewrite Hd in W.
+    destruct (rfc6901_at (s :: rest) v) as [r|]; cbn [walk_post] in W.
+    + destruct W as (pos' & rn & -> & HR & _). exists rn. split; [reflexivity|assumption].
+    + destruct W as (st' & -> & (_ & -> & _)). reflexivity.
+Qed.
+
+(* ------------------------------------------------------------------ the look-ups on a whole document *)
+Lemma find_key_in s ms x : find_key s ms = Some x -> exists k, In (k, x) ms.
+Proof.
+  induction ms as [|[k y] tl IH]; [discriminate|]. cbn [find_key]. destruct (bytes_eqb s k).
+  - intros H. injection H as <-. exists k. left. reflexivity.
+  - intros H. destruct (IH H) as (k' & Hin). exists k'. right. assumption.
+Qed.
+
+Lemma rfc_depth : forall segs v r, rfc6901_at segs v = Some r -> (depth r <= depth v)%nat.
+Proof.
+  induction segs as [|s rest IH]; intros v r H; cbn [rfc6901_at] in H; [injection H as <-; lia|].
+  destruct v; try discriminate.
+  - destruct (rfc_index s) as [i|]; [|discriminate]. destruct (nth_error items (Z.to_nat i)) as [x|] eqn:E; [|discriminate].
+    specialize (IH x r H). apply nth_error_In in E. pose proof (fold_max_ge depth items x E). cbn [depth]. lia.
+  - destruct (find_key s members) as [x|] eqn:E; [|discriminate]. specialize (IH x r H).
+    destruct (find_key_in _ _ _ E) as (k & Hin). pose proof (fold_max_ge (fun m => depth (snd m)) members (k, x) Hin) as Hge.
+    cbn [depth snd] in *. lia.
+Qed.
+
+Theorem at_binn2_rfc v bs ptr : wfx v -> binn_encode v = Some bs -> pok ptr -> zlen ptr <= jbinn_JBL_MAX_NESTING_LEVEL ->
+  at_binn2 bs ptr = match rfc6901_at ptr v with Some r => AtFound r | None => AtNotFound end.
+Proof.
+  intros Hw He Hp Hc. destruct (root_repr v bs (proj1 Hw) He) as (b & Hroot & R & He').
+  assert (Hcont : (exists l, v = JArr l) \/ (exists ms, v = JObj ms)) by (destruct v; try discriminate; eauto).
+  unfold at_binn2. rewrite Hroot.
+  pose proof (at_bval2_rfc v b ptr R Hw Hp Hc Hcont) as H.
+  destruct (rfc6901_at ptr v) as [r|] eqn:Er.
+  - destruct H as (rn & -> & Hrn). rewrite (repr_dec r rn Hrn); [reflexivity|].
+    pose proof (rfc_depth _ _ _ Er). pose proof (depth_le_len v bs He'). lia.
+  - rewrite H. reflexivity.
+Qed.
+
+(* both engines, on the parsed pointer and on its text *)
+Theorem at_agree2 v bs ptr : wf v = true -> small v = true -> binn_encode v = Some bs ->
+  pok ptr -> zlen ptr <= jbinn_JBL_MAX_NESTING_LEVEL ->
+  at_tree2 v ptr = at_binn2 bs ptr /\
+  at_tree2 v ptr = match rfc6901_at ptr v with Some r => AtFound r | None => AtNotFound end.
+Proof.
+  intros Hw Hs He Hp Hc. rewrite (at_tree2_rfc v ptr (conj Hw Hs) Hp Hc), (at_binn2_rfc v bs ptr (conj Hw Hs) He Hp Hc).
+  split; reflexivity.
+Qed.
+
+Theorem at_agree v bs path ptr : wf v = true -> small v = true -> binn_encode v = Some bs ->
+  ptr_parse path = Some ptr -> pok ptr -> zlen ptr <= jbinn_JBL_MAX_NESTING_LEVEL ->
+  at_tree v path = at_binn bs path /\
+  at_tree v path = match rfc6901_at ptr v with Some r => AtFound r | None => AtNotFound end.
+Proof.
+  intros Hw Hs He Hpp Hp Hc. unfold ptr_parse in Hpp. unfold at_tree, at_binn.
+  destruct (ptr_parse3 path) as [| |ss]; try discriminate. injection Hpp as ->.
+  apply at_agree2; assumption.
+Qed.
+
+(* ------------------------------------------------------------------ _jbl_ptr_pool against RFC 6901 *)
+Fixpoint tok_rest (q : list Z) : list Z * list Z :=
+  match q with
+  | [] => ([], [])
+  | c :: r => if c =? 47 then ([], q) else let (t, rs) := tok_rest r in (c :: t, rs)
+  end.
+
+Lemma split_slash_tok q : forall cur,
+  split_slash q cur = (rev cur ++ fst (tok_rest q)) :: match snd (tok_rest q) with [] => [] | _ :: r' => split_slash r' [] end.
+Proof.
+  induction q as [|c r IH]; intros cur; cbn [split_slash tok_rest].
+  - cbn [fst snd]. rewrite app_nil_r. reflexivity.
+  - destruct (c =? 47) eqn:E.
+    + cbn [fst snd]. rewrite app_nil_r. reflexivity.
+    + rewrite IH. destruct (tok_rest r) as [t rs]. cbn [fst snd rev]. rewrite <- app_assoc. reflexivity.
+Qed.
+
+Lemma tok_rest_snd q : snd (tok_rest q) = [] \/ exists r', snd (tok_rest q) = 47 :: r'.
+Proof.
+  induction q as [|c r IH]; cbn [tok_rest]; [left; reflexivity|]. destruct (c =? 47) eqn:E.
+  - right. apply Z.eqb_eq in E. subst. exists r. reflexivity.
+  - destruct (tok_rest r) as [t rs]. exact IH.
+Qed.
+
+Lemma tok_rest_count q : count_slash (snd (tok_rest q)) = count_slash q /\ (length (snd (tok_rest q)) <= length q)%nat.
+Proof.
+  induction q as [|c r IH]; cbn [tok_rest]; [split; reflexivity|]. destruct (c =? 47) eqn:E; [split; reflexivity|].
+  destruct (tok_rest r) as [t rs]. cbn [snd] in *. unfold count_slash in *. cbn [filter]. rewrite E. cbn [length]. split; [tauto|lia].
+Qed.
+
+Lemma seg_scan_tok : forall n q, (length q <= n)%nat -> forall acc,
+  seg_scan q acc = match rfc_unescape (fst (tok_rest q)) with
+                   | Some u => Some (rev acc ++ u, snd (tok_rest q))
+                   | None => None
+                   end.
+Proof.
+  induction n as [|n IH]; intros q Hl acc.
+  - destruct q; [|simpl in Hl; lia]. cbn. rewrite app_nil_r. reflexivity.
+  - destruct q as [|c p1]; [cbn; rewrite app_nil_r; reflexivity|].
+    cbn [seg_scan tok_rest]. destruct (c =? 47) eqn:E47.
+    + cbn [fst snd rfc_unescape]. rewrite app_nil_r. reflexivity.
+    + destruct (c =? 126) eqn:E126.
+      * destruct p1 as [|d p2].
+        -- cbn [tok_rest fst snd rfc_unescape]. rewrite E126. reflexivity.
+        -- cbn [tok_rest]. destruct (d =? 47) eqn:D47.
+           ++ cbn [fst snd rfc_unescape]. rewrite E126. replace (d =? 48) with false by lia. replace (d =? 49) with false by lia. reflexivity.
+           ++ destruct (tok_rest p2) as [t rs] eqn:Et. cbn [fst snd rfc_unescape]. rewrite E126.
+              pose proof (IH p2 ltac:(simpl in Hl; lia)) as IH2. rewrite Et in IH2. cbn [fst snd] in IH2.
+              destruct (d =? 48) eqn:D48.
+              { rewrite IH2. destruct (rfc_unescape t); cbn [option_map rev]; [|reflexivity]. rewrite <- app_assoc. reflexivity. }
+              destruct (d =? 49) eqn:D49; [|reflexivity].
+              rewrite IH2. destruct (rfc_unescape t); cbn [option_map rev]; [|reflexivity]. rewrite <- app_assoc. reflexivity.
+      * destruct (tok_rest p1) as [t rs] eqn:Et. cbn [fst snd rfc_unescape]. rewrite E126.
+        pose proof (IH p1 ltac:(simpl in Hl; lia) (c :: acc)) as IH1. rewrite Et in IH1. cbn [fst snd] in IH1. rewrite IH1.
+        destruct (rfc_unescape t); cbn [option_map rev]; [|reflexivity]. rewrite <- app_assoc. reflexivity.
+Qed.
+
+Lemma segs_scan_nil k : segs_scan k [] = Some [].
+Proof. destruct k; reflexivity. Qed.
+
+Lemma segs_scan_rfc : forall n q, (length q <= n)%nat ->
+  segs_scan (S (count_slash q)) (47 :: q) = all_some (map rfc_unescape (split_slash q [])).
+Proof.
+  induction n as [|n IH]; intros q Hl.
+  - destruct q; [reflexivity|simpl in Hl; lia].
+  - cbn [segs_scan]. change (47 =? 47) with true. cbv iota.
+    rewrite (seg_scan_tok (length q) q (le_n _) []). rewrite split_slash_tok. cbn [rev app map all_some].
+    destruct (rfc_unescape (fst (tok_rest q))) as [u|]; [|reflexivity].
+    destruct (tok_rest_count q) as [Hc Hlen]. rewrite <- Hc.
+    destruct (tok_rest_snd q) as [->|[r' Hr']].
+    + rewrite segs_scan_nil. reflexivity.
+    + rewrite Hr' in *. unfold count_slash at 1. cbn [filter]. change (47 =? 47) with true. cbn [length]. fold (count_slash r').
+      rewrite (IH r') by (cbn [length] in Hlen; destruct q; [simpl in Hlen; lia|simpl in Hl; simpl in Hlen; lia]).
+      destruct (all_some (map rfc_unescape (split_slash r' []))); reflexivity.
+Qed.
+
+Definition trailing_slash (p : list Z) : bool := (zlen p >? 1) && (last p 0 =? 47).
+
+Theorem ptr_parse_rfc6901 : forall path, trailing_slash (cstr path) = false ->
+  ptr_parse path = rfc_ptr_parse (cstr path).
+Proof.
+  intros path Ht. unfold ptr_parse, ptr_parse3, rfc_ptr_parse. unfold trailing_slash in Ht.
+  destruct (cstr path) as [|c r] eqn:Ep; [reflexivity|].
+  destruct (c =? 47) eqn:E; [|reflexivity]. cbn [negb]. rewrite Ht.
+  apply Z.eqb_eq in E. subst c.
+  assert (Hcs : count_slash (47 :: r) = S (count_slash r)) by (unfold count_slash; cbn [filter]; reflexivity).
+  rewrite Hcs. rewrite (segs_scan_rfc (length r) r (le_n _)).
+  destruct (all_some (map rfc_unescape (split_slash r []))); reflexivity.
+Qed.
+
+(* a pointer with more than one character that ends in '/' is refused although RFC 6901 gives it a last segment "" *)
+Theorem ptr_parse_trailing_slash : forall path, trailing_slash (cstr path) = true -> ptr_parse3 path = PErr.
+Proof.
+  intros path Ht. unfold ptr_parse3. unfold trailing_slash in Ht. destruct (cstr path) as [|c r]; [discriminate|].
+  destruct (c =? 47); [|reflexivity]. cbn [negb]. rewrite Ht. reflexivity.
+Qed.
+
+(* the segments of a parsed pointer are C strings *)
+Lemma rfc_unescape_chars : forall n s u, (length s <= n)%nat -> rfc_unescape s = Some u -> forallb char_ok s = true -> forallb char_ok u = true.
+Proof.
+  induction n as [|n IH]; intros s u Hl H Hc.
+  - destruct s; [|simpl in Hl; lia]. injection H as <-. reflexivity.
+  - destruct s as [|c r]; [injection H as <-; reflexivity|]. cbn [rfc_unescape] in H. cbn [forallb] in Hc. apply andb_prop in Hc as [Hc1 Hc2].
+    destruct (c =? 126).
+    + destruct r as [|d r']; [discriminate|]. cbn [forallb] in Hc2. apply andb_prop in Hc2 as [_ Hc3].
+      destruct (d =? 48).
+      { destruct (rfc_unescape r') as [u'|] eqn:Eu; [|discriminate]. injection H as <-. cbn [forallb].
+        rewrite (IH r' u' ltac:(simpl in Hl; lia) Eu Hc3). reflexivity. }
+      destruct (d =? 49); [|discriminate].
+      destruct (rfc_unescape r') as [u'|] eqn:Eu; [|discriminate]. injection H as <-. cbn [forallb].
+      rewrite (IH r' u' ltac:(simpl in Hl; lia) Eu Hc3). reflexivity.
+    + destruct (rfc_unescape r) as [u'|] eqn:Eu; [|discriminate]. injection H as <-. cbn [forallb].
+      rewrite Hc1. rewrite (IH r u' ltac:(simpl in Hl; lia) Eu Hc2). reflexivity.
+Qed.
+
+Lemma split_slash_chars q : forall cur, forallb char_ok q = true -> forallb char_ok cur = true ->
+  Forall (fun s => forallb char_ok s = true) (split_slash q cur).
+Proof.
+  induction q as [|c r IH]; intros cur Hq Hc; cbn [split_slash].
+  - constructor; [rewrite forallb_rev; assumption|constructor].
+  - cbn [forallb] in Hq. apply andb_prop in Hq as [H1 H2]. destruct (c =? 47).
+    + constructor; [rewrite forallb_rev; assumption|]. apply IH; [assumption|reflexivity].
+    + apply IH; [assumption|]. cbn [forallb]. rewrite H1, Hc. reflexivity.
+Qed.
+
+Lemma all_some_chars (l : list (list Z)) : forall ss, Forall (fun s => forallb char_ok s = true) l ->
+  all_some (map rfc_unescape l) = Some ss -> Forall (fun s => forallb char_ok s = true) ss.
+Proof.
+  induction l as [|s r IH]; intros ss Hf H; cbn [map all_some] in H.
+  - injection H as <-. constructor.
+  - destruct (rfc_unescape s) as [u|] eqn:Eu; [|discriminate].
+    destruct (all_some (map rfc_unescape r)) as [us|] eqn:Er; [|discriminate]. injection H as <-.
+    constructor; [eapply rfc_unescape_chars; [apply le_n|exact Eu|apply (Forall_inv Hf)]|].
+    apply IH; [apply (Forall_inv_tail Hf)|reflexivity].
+Qed.
+
+Lemma cstr_chars path : forallb byte_ok path = true -> forallb char_ok (cstr path) = true.
+Proof.
+  induction path as [|c r IH]; [reflexivity|]. cbn [forallb cstr]. intros H. apply andb_prop in H as [H1 H2].
+  destruct (c =? 0) eqn:E; [reflexivity|]. cbn [forallb]. rewrite (IH H2). unfold byte_ok in H1. unfold char_ok.
+  replace (1 <=? c) with true by lia. replace (c <=? 255) with true by lia. reflexivity.
+Qed.
+
+Theorem ptr_parse_chars path ptr : forallb byte_ok path = true -> ptr_parse path = Some ptr ->
+  Forall (fun s => forallb char_ok s = true) ptr.
+Proof.
+  intros Hb H. pose proof (cstr_chars path Hb) as Hc.
+  destruct (trailing_slash (cstr path)) eqn:Et.
+  - unfold ptr_parse in H. rewrite (ptr_parse_trailing_slash path Et) in H. discriminate.
+  - rewrite (ptr_parse_rfc6901 path Et) in H. unfold rfc_ptr_parse in H.
+    destruct (cstr path) as [|c r]; [injection H as <-; constructor|].
+    destruct (c =? 47); [|discriminate]. cbn [forallb] in Hc. apply andb_prop in Hc as [_ Hc].
+    eapply all_some_chars; [|exact H]. apply split_slash_chars; [assumption|reflexivity].
+Qed.
+
+(* the statement of C14 on pointer texts *)
+Theorem at_agree_text v bs path ptr : wf v = true -> small v = true -> binn_encode v = Some bs ->
+  forallb byte_ok path = true -> ptr_parse path = Some ptr ->
+  Forall (fun s => star s = false) ptr -> zlen ptr <= jbinn_JBL_MAX_NESTING_LEVEL ->
+  at_tree v path = at_binn bs path /\
+  at_tree v path = match rfc6901_at ptr v with Some r => AtFound r | None => AtNotFound end.
+Proof.
+  intros Hw Hs He Hb Hpp Hst Hc. apply (at_agree v bs path ptr); try assumption.
+  pose proof (ptr_parse_chars path ptr Hb Hpp) as Hch. unfold pok. rewrite Forall_forall in *.
+  intros s Hin. split; [apply Hch|apply Hst]; assumption.
 Qed.
